@@ -139,7 +139,7 @@ def run(P, R, tier):
     idx.check_label_uses(P, R, f)
     nl = idx.check_set_loop_order(P, R, f)
     if not any(isinstance(x, ast.Subscript) and isinstance(x.value, ast.Name) and x.value.id == f.value_params[0] and isinstance(x.slice, ast.Slice) for x in ast.walk(f.node)):
-        R.floor("IDX.loops[WCCN.fit]", len(loops), 2)
+        R.floor("IDX.loops[WCCN.fit]", len(loops), 1)
     # class count = number of distinct labels: the scalar that scales the scatter before the inversion
     scale_names = set()
     for st, t, v, k in stores(f):
